@@ -922,8 +922,9 @@ func (in *Interp) findRootSummary(args []Value, c *ssa.CallCommon, fr *Frame) []
 	fmin, fmax := call(minX), call(maxX)
 	in.implicitFail("FindRoot-invalid-range", ts.And(ts.FCmp("fle", fmin, zero), ts.FCmp("fle", zero, fmax)))
 	// the same bracket on the same function (fingerprinted by its values at the ends) yields the
-	// same root: FindRoot is deterministic
-	x := ts.Var(fmt.Sprintf("findroot_x!%d_%d_%d_%d", minX.id, maxX.id, fmin.id, fmax.id), in.floatSort())
+	// same root: FindRoot is deterministic.  Congruence (equal arguments => equal result) is
+	// semantic, so syntactically different but equal brackets give the same root.
+	x := in.ackermannNamedX("findroot", []*Term{minX, maxX, fmin, fmax}, false, false)
 	in.assume(ts.And(ts.FCmp("fle", minX, x), ts.FCmp("fle", x, maxX)))
 	d := call(x)
 	in.assume(ts.FCmp("flt", in.fabs(d), tol))
